@@ -204,6 +204,12 @@ HOSTILE = [
     ("from {{m}} import {{n}}", "from a import b\nfrom a import b as c\nfrom a import b, c\nfrom . import d\n"),
     ("{{x}} if {{c}} else {{x}}", "y = a if b else a\nz = a if b else c\n"),
     ("lambda {{a}}: {{a}}", "f = lambda q: q\ng = lambda q: r\n"),
+    # type parameters (3.12) are part of the tree
+    ("def f():\n    pass", "def f[T]():\n    pass\ndef f():\n    pass\n"),
+    ("def f[T]():\n    pass", "def f[T]():\n    pass\ndef f():\n    pass\ndef f[U]():\n    pass\n"),
+    ("class A:\n    pass", "class A[T]:\n    pass\nclass A:\n    pass\n"),
+    ("async def {{name}}():\n    {{...*}}", "async def a[T]():\n    pass\nasync def b():\n    pass\n"),
+    ("def {{name}}({{a}}):\n    return {{a}}", "def ident[T](v):\n    return v\ndef plain(v):\n    return v\n"),
     # a wildcard where the code has no child at all: no syntax tree can stand there
     ("x: int = {{v}}", "x: int\nx: int = 1\n"),
     ("def f():\n    return {{v}}", "def f():\n    return\n"),
